@@ -174,13 +174,16 @@ def lemma(qual, at=None):
     return _reg("lemma", qual, at=at)
 
 
-def hint(qual, loop=None, when="head", scoped=False, uses=(), before=None):
+def hint(qual, loop=None, when="head", scoped=False, uses=(), before=None, optional=False):
     """an assertion the verifier proves at the given point and may use afterwards (Dafny-style `assert`):
     loop=k, when='head' (after assuming the invariant) | 'end' (before re-establishing it) | 'exit';
     loop=None: before the postconditions at every return."""
     def deco(fn):
         c = _c(qual)
         c.funcs[fn.__name__] = fn
+        if optional:
+            # the hint is skipped (it is only a proof step) at a matching statement where one of its names is not bound
+            c.opts.setdefault("optional_hints", set()).add(fn.__name__)
         if before is not None:
             # proved (and then available) immediately before the first statement whose source text contains `before`
             c.hints.setdefault(("before", before), []).append(fn.__name__)
